@@ -1,6 +1,6 @@
 /-
   PINS of property C03: the decision tokens of every item the property is anchored in
-  (properties.jsonl `anchors` + tools/anchor_extra.json), as they were in /repo at 32de816 when the
+  (properties.jsonl `anchors` + tools/anchor_extra.json), as they were in /repo at 770977e when the
   model was validated against the source.  Written by tools/pin_anchors.py; the right-hand sides are
   compared by the kernel with lean/Chrono/Extracted/Anchors.lean, which tools/extractors/anchors.py
   regenerates from /repo's working tree on every check.  A theorem that fails here means: anchored
@@ -69,6 +69,14 @@ theorem src_naive_date_mod_rs_fn_checked_sub_days : C03_src_naive_date_mod_rs_fn
 /-- src/naive/date/mod.rs:fn checked_sub_signed -/
 theorem src_naive_date_mod_rs_fn_checked_sub_signed : C03_src_naive_date_mod_rs_fn_checked_sub_signed =
     ["self", "v1", "TimeDelta", "->", "Option", "<", "NaiveDate", ">", "v2", "-", "v1", "num_days(", "if", "v2", "<", "i32", "MIN", "as", "i64", "||", "v2", ">", "i32", "MAX", "as", "i64", "return", "None", "self", "add_days(", "v2", "as", "i32"] := by decide +kernel
+
+/-- src/naive/date/mod.rs:fn iter_days -/
+theorem src_naive_date_mod_rs_fn_iter_days : C03_src_naive_date_mod_rs_fn_iter_days =
+    ["&", "self", "->", "NaiveDateDaysIterator", "NaiveDateDaysIterator", "v1", "*", "self"] := by decide +kernel
+
+/-- src/naive/date/mod.rs:fn iter_weeks -/
+theorem src_naive_date_mod_rs_fn_iter_weeks : C03_src_naive_date_mod_rs_fn_iter_weeks =
+    ["&", "self", "->", "NaiveDateWeeksIterator", "NaiveDateWeeksIterator", "v1", "*", "self"] := by decide +kernel
 
 /-- src/naive/date/mod.rs:fn signed_duration_since -/
 theorem src_naive_date_mod_rs_fn_signed_duration_since : C03_src_naive_date_mod_rs_fn_signed_duration_since =
